@@ -5,14 +5,20 @@ parse stage and every lift/SSA error of a user definition is displayed and
 makes the exit status 1, for every failure class, order and option set that
 does not allow-list it; exit 0 only if every user definition was analysed).
 Derived, not assumed (coq/props/C02.v over Model.Includes + Model.Front +
-Model.Runner, all file systems): a named path that cannot be opened, an
-unreadable file, a named file that does not parse, an unresolvable include of a
-named file put an error report into the project handed to the runner whose
-location passes the file filter, so it is displayed and the exit status is 1;
+Model.Runner, all file systems) for FOUR of the ten failure classes: a named
+path that cannot be opened, an unreadable file, a named file that does not
+parse, an unresolvable include of a named file put an error report into the
+project handed to the runner whose location passes the file filter, so it is
+displayed and the exit status is 1.  The other SIX classes (duplicate
+parameter, lift failure, pragma, several mains, invalid tuple / anonymous
+component, duplicate definition) have no class theorem: they are covered by
+the injection matrix below only (+ the class table check, whose table is read
+from Spec.NoSilentSpec.class_table through the extracted driver);
 the user-input ids are the ids of the named files whatever the order in which
 they are read.  Tie of that front to the code (engine front, lib/c02front.py):
 Model.Includes.run_project + Model.Front on the file system of every project of
-the matrix vs the FileLibrary / report collection of the real parse_files.
+the matrix vs the FileLibrary / report collection of the real parse_files,
+every report of the Includes stage with its category, code id and code name.
 Tie to the code (engine e2e): the failure-injection matrix — every failure
 class x every injection position in otherwise clean projects — run through
 the real binary (default options, verbose and not), compared with the model
@@ -229,7 +235,10 @@ def injections(ctx):
                     if depth == 0:
                         break
                 f2 = dict(files)
-                f2[u] = src + "\n" + src[s:i] + "\n"
+                # (before the main component: a definition after `component main` is a syntax error, not a duplicate)
+                cut = src.find("component main")
+                cut = len(src) if cut < 0 else cut
+                f2[u] = src[:cut] + "\n" + src[s:i] + "\n" + src[cut:]
                 add("%s-%s-%s-dup-samefile" % (btag, u, name), f2, argv, "duplicate-definition", uncond=False)
                 f3 = dict(files)
                 f3["extra.circom"] = "pragma circom 2.0.0;\n" + src[s:i] + "\n"
@@ -245,20 +254,25 @@ NOTES_TXT = ("pragma circom 2.0.0;\ntemplate Notes(n) {\n    signal input in;\n 
              "    out <== in * n;\n}\n")
 
 
-# Spec.NoSilentSpec.class_producer, by the class names of the matrix: which mirror produces the report of a class
-# (includes: Model.Includes through Model.Front; lift: Err(report) of a definition of a named file; other-*: a
-# report of a stage outside both mirrors, without label / located in a named file)
-CLASS_PRODUCER = {
-    "missing-file": "includes-os", "unreadable-file": "includes-os", "lexical-error": "includes-parse",
-    "syntax-error": "includes-parse", "unresolved-include": "includes-include",
-    "duplicate-parameter": "lift", "lift-failure": "lift",
-    "bad-pragma": "other-unlocated", "several-mains": "other-unlocated",
-    "invalid-tuple-or-anonymous": "other-located", "duplicate-definition": "other-located",
-}
+# The class names of the matrix -> the constructors of Spec.NoSilentSpec.failure_class: CamelCase of the name; the
+# matrix injects the class SyntaxError of the property text in two ways (an invalid character, a deleted/doubled token).
+# Which mirror produces the report of a class and in which form (class_producer, class_shape) is NOT written here: it
+# is read from the Coq definition through the extracted driver (c02front.class_table()).
+MATRIX_CLASS_ALIAS = {"lexical-error": "SyntaxError"}
 
 
-def producers(t):
-    """The shapes of `failure_event` (Spec.NoSilentSpec) the ground truth of a project satisfies."""
+# classes the matrix can only inject conditionally (the inserted statement / the copied definition may leave a valid
+# program): their table check is made on the injections that apply (the in-process pipeline reports an error-level problem)
+CONDITIONAL_ONLY = ("InvalidTupleOrAnonymous", "DuplicateDefinition")
+
+
+def coq_class(cls):
+    return MATRIX_CLASS_ALIAS.get(cls) or "".join(w.capitalize() for w in cls.split("-"))
+
+
+def producers(t, pf_code_id):
+    """The shapes (Spec.NoSilentSpec.report_shape, Proofs.NoSilentProofs.failure_event_shape) of the error-level
+    reports in the ground truth of a project."""
     out = set()
     user = set(t.user_files)
     for q in t.parse:
@@ -266,22 +280,22 @@ def producers(t):
         if r["level"] != "error":
             continue
         in_user = any(f in user for f in r["pfiles"])
-        if r["id"] == "P1000":
+        if r["id"] == pf_code_id:
             if not r["pfiles"]:
-                out.add("includes-os")
+                out.add("ShOsError")
             elif in_user and r["message"].startswith("Failed to open file"):
-                out.add("includes-include")
+                out.add("ShIncludeError")
             elif in_user:
-                out.add("includes-parse")
+                out.add("ShParseError")
         elif not r["pfiles"]:
-            out.add("other-unlocated")
+            out.add("ShOtherUnlabelled")
         elif in_user:
-            out.add("other-located")
+            out.add("ShOtherInNamedFile")
     for d in t.defs:
         if d["user"] and d["err"] is not None:
             r = t.payload[d["err"]][0]
             if r["level"] == "error" and (not r["pfiles"] or any(f in user for f in r["pfiles"])):
-                out.add("lift")
+                out.add("ShLiftError")
     return out
 
 
@@ -328,6 +342,22 @@ def run(ctx, proofs):
         # the report collection of the real parse_files (the premise side of C02_failure_classes_reported,
         # C02_clean_only_if_all_read_and_analysed, C02_user_ids_are_named_files)
         front_dis, front_stats = c02front.compare(projects, raw_truths)
+        canon_broken = front_stats.pop("hypothesis_broken")
+        pf_code = front_stats["parse_fail_code"]
+        # Spec.NoSilentSpec.class_table, printed by the extracted driver: class -> (producer, shape)
+        coq_table = c02front.class_table()
+        derived = sorted(c for c, (prod, _) in coq_table.items() if prod == "ByIncludes")
+        matrix_only = sorted(c for c, (prod, _) in coq_table.items() if prod != "ByIncludes")
+        # hypothesis wf_project of the theorems (one definition per (kind, name)), on the definitions of every ground truth
+        wf_holds, wf_broken = 0, []
+        for p, t in zip(projects, truths):
+            if t.bad:
+                continue
+            keys = [d["key"] for d in t.defs]
+            if len(keys) == len(set(keys)):
+                wf_holds += 1
+            else:
+                wf_broken.append(p.describe())
         runs = []
         for i in range(len(projects)):
             runs.append({"p": i, "level": "warning", "omit_level": True, "allow": [], "verbose": True, "sarif": True})
@@ -337,6 +367,8 @@ def run(ctx, proofs):
         # HashMap<FileID, ..> (known finding D22, property C17), so the in-process ground truth of the harness and the
         # binary's own parse may legitimately differ. Those projects are judged by the C02 oracle below only.
         cross = {i for i, p in enumerate(projects) if p.tag.endswith("-dup-otherfile")}
+        cross_dropped = {"projects": len(cross), "disagreements_not_judged": sum(d["run"]["p"] in cross for d in dis),
+                         "contract_failures_not_judged": sum(f["run"]["p"] in cross for f in fail)}
         dis = [d for d in dis if d["run"]["p"] not in cross]
         fail = [f for f in fail if f["run"]["p"] not in cross]
         # the bases must be clean, otherwise the matrix shows nothing
@@ -350,6 +382,8 @@ def run(ctx, proofs):
         silent = []
         known_hits = {}
         table_mismatch = []
+        table_stats = {"checked": 0, "skipped_conditional_injection": 0, "skipped_no_coq_class": {}, "skipped_known_finding": 0,
+                       "skipped_truth_unavailable": 0, "coq_classes_checked": {}}
         for (p, cls, uncond), k in zip(inj, range(nbase, len(projects))):
             t = truths[k]
             st = per_class.setdefault(cls, {"injected": 0, "applicable": 0, "reported": 0, "silent": 0, "still_clean_and_valid": 0})
@@ -373,16 +407,32 @@ def run(ctx, proofs):
                     # is an input file whatever its suffix: a missing one must be reported; an existing one is
                     # read like any other named file and is judged by clean_problems below
                     applicable = p.tag.endswith("-nosuffix-missing")
-                if applicable and not t.bad and r is runs[2 * k]:
-                    prods = producers(t)
-                    for q in prods:
-                        st.setdefault("manifests_by", {}).setdefault(q, 0)
-                        st["manifests_by"][q] += 1
-                    want = CLASS_PRODUCER.get(cls)
-                    kf_case = cls == "duplicate-definition" and t.t.get("mode") == "library"
-                    if uncond and want and want not in prods and not kf_case:
-                        table_mismatch.append({"tag": p.tag, "class": cls, "expected_producer": want, "found": sorted(prods),
-                                               "project": p.describe()})
+                if applicable and r is runs[2 * k]:
+                    cc = coq_class(cls)
+                    truth_err = not t.bad and any(t.payload[q][0]["level"] == "error" for q in t.produced())
+                    # the known finding: in library mode (also the fall-back of a program whose archive cannot be built) the
+                    # copy is dropped without any report; where the pipeline does report, the form of the report is checked
+                    kf_case = cls == "duplicate-definition" and not t.bad and t.t.get("mode") == "library" and not truth_err
+                    if t.bad:
+                        table_stats["skipped_truth_unavailable"] += 1
+                    elif cc not in coq_table:
+                        table_stats["skipped_no_coq_class"][cls] = table_stats["skipped_no_coq_class"].get(cls, 0) + 1
+                    elif not uncond and cc not in CONDITIONAL_ONLY:
+                        table_stats["skipped_conditional_injection"] += 1
+                    elif kf_case:
+                        table_stats["skipped_known_finding"] += 1
+                    if not t.bad:
+                        prods = producers(t, pf_code["id"])
+                        for q in prods:
+                            st.setdefault("manifests_by", {}).setdefault(q, 0)
+                            st["manifests_by"][q] += 1
+                        if (uncond or cc in CONDITIONAL_ONLY) and cc in coq_table and not kf_case:
+                            want = coq_table[cc][1]
+                            table_stats["checked"] += 1
+                            table_stats["coq_classes_checked"][cc] = table_stats["coq_classes_checked"].get(cc, 0) + 1
+                            if want not in prods:
+                                table_mismatch.append({"tag": p.tag, "class": cls, "coq_class": cc, "producer": coq_table[cc][0],
+                                                       "expected_shape": want, "found": sorted(prods), "project": p.describe()})
                 if applicable:
                     st["applicable"] += 1
                     if err:
@@ -433,9 +483,9 @@ def run(ctx, proofs):
                                "count": len(front_dis), "project": d["project"]}, no_input=True)
             elif table_mismatch:
                 d = table_mismatch[0]
-                ctx.violation("failure class `%s` does not manifest itself through the producer Spec.NoSilentSpec.class_producer names "
-                              "(%s; found %s) in %d injected projects, first %s"
-                              % (d["class"], d["expected_producer"], d["found"], len(table_mismatch), d["tag"]),
+                ctx.violation("failure class `%s` does not manifest itself in the form Spec.NoSilentSpec.class_shape names "
+                              "(%s by %s; found %s) in %d injected projects, first %s"
+                              % (d["class"], d["expected_shape"], d["producer"], d["found"], len(table_mismatch), d["tag"]),
                               {"broken": "Spec.NoSilentSpec.class_producer / failure_event vs the pipeline", "first": d,
                                "count": len(table_mismatch), "project": d["project"]}, no_input=True)
             elif dis:
@@ -447,7 +497,19 @@ def run(ctx, proofs):
             elif proofs["failures"]:
                 ctx.violation("proof obligations of C02 no longer check: " + "; ".join(proofs["failures"])[:500],
                               {"broken": "props/C02.v", "failures": proofs["failures"]}, no_input=True)
+            elif canon_broken or wf_broken:
+                which = "canon idempotent (forall p c, canon p = Some c -> canon c = Some c)" if canon_broken else "wf_project"
+                d = (canon_broken or wf_broken)[0]
+                ctx.violation("hypothesis `%s` of the theorems of props/C02.v does not hold on %d explored projects, first %s"
+                              % (which, len(canon_broken or wf_broken), d.get("tag")),
+                              {"broken": "hypothesis " + which, "project": d, "count": len(canon_broken or wf_broken)}, no_input=True)
             else:
+                never = sorted(c for c in coq_table if not table_stats["coq_classes_checked"].get(c))
+                if never:
+                    ctx.violation("class table check degenerate: no unconditional injection for the classes %s of "
+                                  "Spec.NoSilentSpec.failure_class" % never,
+                                  {"broken": "lib/props/C02.py injections() vs Spec.NoSilentSpec.class_table", "table": table_stats},
+                                  no_input=True)
                 weak = [c for c, st in per_class.items() if st["applicable"] == 0 and c not in ("corpus",)]
                 if weak:
                     ctx.violation("injection matrix degenerate: no applicable injection for classes %s" % weak,
@@ -471,6 +533,23 @@ def run(ctx, proofs):
             "disagreements_model_vs_impl": len(dis), "spec_failures": len(silent) + len(fail),
             "front": dict(front_stats, disagreements=len(front_dis)),
             "class_table_mismatches": len(table_mismatch),
+            "class_table": {c: list(v) for c, v in sorted(coq_table.items())},
+            "class_table_source": "Spec.NoSilentSpec.class_table printed by `model_front classes` (extracted), not a copy",
+            "class_table_check": table_stats,
+            "classes_derived_from_the_file_system": derived,
+            "classes_covered_by_the_injection_matrix_only": matrix_only,
+            "hypotheses_evaluated": {
+                "canon_idempotent": {"holds": front_stats["canon_idempotent"], "broken": len(canon_broken),
+                                     "on": "the canonicalisation table of every project the front comparison encodes"},
+                "wf_project": {"holds": wf_holds, "broken": len(wf_broken), "on": "the definitions of every ground truth"},
+                "parse_files_returns_Ok": "a model run that is not `ok` differs from the ground truth and is a front disagreement",
+                "analysis_order": "judged per run by lib/e2e.py judge(): the analysed definitions are a permutation of the "
+                                  "definitions of the user files (a failure of the property text otherwise)",
+                "pf_id_not_allow_listed": "every run of the matrix has an empty allow list",
+                "failure_event": "derived classes: the file-system fact is what the injection creates; that the model sees it is "
+                                 "part of the front comparison (reports equal). Not evaluated as a Coq predicate",
+            },
+            "cross_file_duplicates_not_judged_by_correspondence": cross_dropped,
             "samples": [{"tag": p.tag, "class": c, "argv": p.argv} for p, c, _ in inj[:: max(1, len(inj) // 4)][:4]],
         })
         ctx.assumptions += [
@@ -487,10 +566,17 @@ def run(ctx, proofs):
             "of every project: coverage.front.canon_idempotent); file contents are the model's parameter `content` (unreadable / does not "
             "parse / include statements with ranges), classified per file by read_to_string and parser_logic::parse_file alone "
             "(harness front content); fs::canonicalize, PathBuf and read_dir are observed through the tables (as for C19)",
-            "for the classes whose report comes from the lifter (duplicate parameter, lift failure) or from stages outside both mirrors "
-            "(pragma, several mains, invalid tuple / anonymous component, duplicate definition) the theorem starts from the report with the "
-            "level and location Spec.NoSilentSpec.failure_event demands; that the real stages produce it in that form is observed "
-            "(class table check on every unconditional injection: coverage.class_table_mismatches, per_class.manifests_by)",
+            "4 of the 10 failure classes are derived from the file system (MissingFile, UnreadableFile, SyntaxError, UnresolvedInclude: "
+            "C02_failure_classes_reported, hypothesis class_producer c = ByIncludes). For the other 6 — duplicate parameter, lift "
+            "failure (the lifter), pragma, several mains, invalid tuple / anonymous component, duplicate definition (stages outside both "
+            "mirrors) — there is no class theorem: they are covered by the injection matrix only (an error-level report must be "
+            "displayed, exit 1), plus the class table check (the ground truth shows a report of the form "
+            "Spec.NoSilentSpec.class_shape names: coverage.class_table_check, class_table_mismatches, per_class.manifests_by); once "
+            "such a report exists, C02_error_report_displayed (the runner's filter law) applies",
+            "that errors.rs gives the reports of the Includes stage the category `error` and the code ReportCode::ParseFail, as "
+            "Model.Front.report_of says, is compared for every such report of every project (coverage.front."
+            "reports_compared_level_and_code, levels_seen, codes_seen); pf_id/pf_name of the model are instantiated with "
+            "ParseFail.id()/.name() read from the tree under test (harness `front code`)",
         ]
     finally:
         for d, _, files in os.walk(base):
